@@ -1148,6 +1148,10 @@ func execLine(cl *sarama.VerifCluster, line string) (string, string) {
 		t[1] = flags // the variant is what THIS tree shows, whatever a replayed line says
 		line = strings.Join(t, " ")
 	}
+	if t[0] == "retry" && len(t) == 4 {
+		t[1] = flags[:1]
+		line = strings.Join(t, " ")
+	}
 	out := run.Safe(line, func() string {
 		switch {
 		case t[0] == "retry" && len(t) == 4:
